@@ -1,1 +1,323 @@
-From SID Require Import Tile DC13.
+(* C13 — 3D tile keys convert to IDs that cover the tile and keep its footprint.
+   Only statements, `exact` proofs and Print Assumptions live here. Models and proofs: theories/Tile.v; run-time checkers: theories/DC13.v.
+
+   Vocabulary. A tile t = (th, tx, ty, tv, tz) = (hZoom, x, y, vZoom, z); a request is a list of tiles with the altitude reference
+   (E, O) = (zBaseExponent, zBaseOffset) and the requested vertical zoom outV.
+     new_tile h x y v z            = object.NewTileXYZ
+     tiles_to_eids l E O outV      = transform.ConvertTileXYZsToExtendedSpatialIDs   (result: records eid = (eh, ex, ey, ev, ef))
+     tiles_to_sids l E O outV      = transform.ConvertTileXYZsToSpatialIDs           (result: strings "z/f/x/y")
+     tiles_to_sids_rec             = the same as records (both zooms equal)
+     key2z k kz out E O            = ConvertAltitudekeyToMinMaxZ (C12, AltKeyCore.v / AltKey.v);  expand_rec / expand_eid = the C10 expansion
+     tile_accepted E O outV t mn mx := 0 <= th t <= 35, 0 <= outV <= 35 and key2z (tz t) (tv t) outV E O = Ok (mn, mx)
+     tile_rejected E O outV t       := the zoom check fails or key2z returns an error
+     from_tile E O outV t j         := t accepted with [mn, mx] /\ eh j = th t /\ ex j = tx t /\ ey j = ty t /\ ev j = outV /\ mn <= ef j <= mx
+     tile_lo / tile_hi E O t        = ends (metres) of the altitude interval of the tile: cell tz of the key scale (tv, E, O)
+     inT E O t (u, w, a)            := (u, w) in the footprint of t and altitude a * 2^25 m in the tile's altitude interval
+     Voxel.inR j (u, w, a)          := the point lies in voxel j  (a = altitude / 2^25)
+   DOMAIN. All theorems about tiles_to_eids / tiles_to_sids hold for ALL integer arguments (no bound on the list, on x, y, z, E, O). They
+   speak about the Go code wherever no int64 operation of the per-tile range computation wraps: C13_range_computation_is_exact_on_domain
+   (zooms 0..35 as enforced by NewTileXYZ and the zoom check, 0 <= E <= 35, |O| <= 2^50). *)
+From Coq Require Import ZArith String List Bool Permutation Reals.
+From Flocq Require Import Core.
+From SID Require Import Base Str AltKeyCore AltKey Ids Voxel ZoomCore Notation Tile DC13.
+Import ListNotations.
+Open Scope list_scope.
+Open Scope Z_scope.
+
+(* ---- NewTileXYZ: zooms 0..35 accepted with all five numbers stored unchanged, anything else (negative zooms included) refused ---- *)
+Theorem C13_new_tile_validates_zooms : forall h x y v z,
+  (0 <= h <= 35 /\ 0 <= v <= 35 -> new_tile h x y v z = Ok (mkt h x y v z)) /\
+  (~ (0 <= h <= 35 /\ 0 <= v <= 35) -> new_tile h x y v z = Err).
+Proof. exact new_tile_spec. Qed.
+Print Assumptions C13_new_tile_validates_zooms.
+
+Theorem C13_new_tile_keeps_fields : forall h x y v z t, new_tile h x y v z = Ok t ->
+  0 <= th t <= 35 /\ 0 <= tv t <= 35 /\ th t = h /\ tx t = x /\ ty t = y /\ tv t = v /\ tz t = z.
+Proof. exact new_tile_ok. Qed.
+Print Assumptions C13_new_tile_keeps_fields.
+
+(* ---- the result, member by member: hZoom, x, y of a tile of the request untouched, the requested vertical zoom, a vertical index of
+        that tile's C12 range — and nothing else ---- *)
+Theorem C13_members_stem_from_tiles : forall l E O outV r, tiles_to_eids l E O outV = Ok r ->
+  forall j, In j r <-> exists t, In t l /\ from_tile E O outV t j.
+Proof. exact tiles_to_eids_members. Qed.
+Print Assumptions C13_members_stem_from_tiles.
+
+Theorem C13_footprint_untouched_vertical_zoom_as_requested : forall l E O outV r j, tiles_to_eids l E O outV = Ok r -> In j r ->
+  ev j = outV /\ exists t, In t l /\ eh j = th t /\ ex j = tx t /\ ey j = ty t.
+Proof. exact tiles_to_eids_footprint. Qed.
+Print Assumptions C13_footprint_untouched_vertical_zoom_as_requested.
+
+(* every tile of a successful call was accepted and its COMPLETE C12 range is in the result *)
+Theorem C13_complete_range_of_every_tile : forall l E O outV r t, tiles_to_eids l E O outV = Ok r -> In t l ->
+  exists mn mx, tile_accepted E O outV t mn mx /\ forall f, mn <= f <= mx -> In (mk (th t) (tx t) (ty t) outV f) r.
+Proof. exact tiles_to_eids_complete. Qed.
+Print Assumptions C13_complete_range_of_every_tile.
+
+(* per tile: the vertical indices present for the tile's footprint contain its whole range and only indices of ranges of tiles sharing
+   that footprint *)
+Theorem C13_vertical_indices_per_tile : forall l E O outV r t, tiles_to_eids l E O outV = Ok r -> In t l ->
+  exists mn mx, key2z (tz t) (tv t) outV E O = Ok (mn, mx) /\
+    (forall f, mn <= f <= mx -> In (mk (th t) (tx t) (ty t) outV f) r) /\
+    (forall f, In (mk (th t) (tx t) (ty t) outV f) r ->
+       exists t' mn' mx', In t' l /\ th t' = th t /\ tx t' = tx t /\ ty t' = ty t /\ key2z (tz t') (tv t') outV E O = Ok (mn', mx') /\ mn' <= f <= mx').
+Proof. exact tiles_to_eids_per_tile. Qed.
+Print Assumptions C13_vertical_indices_per_tile.
+
+(* a single tile: exactly zrange of the C12 range (Base.zrange lo hi = lo, lo+1, ..., hi) *)
+Theorem C13_single_tile_is_exactly_the_range : forall t E O outV,
+  tiles_to_eids [t] E O outV =
+  if ext_check_zoom (th t) outV then
+    match key2z (tz t) (tv t) outV E O with
+    | Ok (mn, mx) => Ok (map (fun f => mk (th t) (tx t) (ty t) outV f) (zrange mn mx))
+    | Err => Err
+    end
+  else Err.
+Proof. exact tiles_to_eids_single. Qed.
+Print Assumptions C13_single_tile_is_exactly_the_range.
+
+(* what the per-tile range is, in the terms of C12: z exists at vZoom; [mn, mx] is the metre-widened cover of the tile's altitude interval
+   on the spatial-ID axis at zoom outV, contains the exact cover, equals it when tile cells (vZoom <= E) or target cells (outV <= 25) are
+   at least one metre tall, and lies inside the index range of outV *)
+Theorem C13_range_is_the_C12_cover : forall E O outV t mn mx, tile_accepted E O outV t mn mx ->
+  let s := tile_scale E O t in let g := sid_scale outV in
+  0 <= th t <= 35 /\ 0 <= outV <= 35 /\ 0 <= tz t < 2 ^ tv t /\
+  mn = wid_min g (tile_lo E O t) /\ mx = wid_max g (tile_hi E O t) /\
+  mn <= cov_min g (tile_lo E O t) /\ cov_max g (tile_hi E O t) <= mx /\ mn <= mx /\
+  ((tv t <= E \/ outV <= zorigin) -> mn = cov_min g (tile_lo E O t) /\ mx = cov_max g (tile_hi E O t)) /\
+  - 2 ^ outV <= mn /\ mx < 2 ^ outV.
+Proof. exact tile_accepted_C12. Qed.
+Print Assumptions C13_range_is_the_C12_cover.
+
+(* ---- duplicates across tiles are removed ---- *)
+Theorem C13_no_duplicates : forall l E O outV r, tiles_to_eids l E O outV = Ok r -> NoDup r.
+Proof. exact tiles_to_eids_NoDup. Qed.
+Print Assumptions C13_no_duplicates.
+
+(* ---- all or nothing: an error iff the requested vertical zoom is outside 0..35 (for EVERY request, the empty one included) or some tile
+        (at any position) is rejected; the error carries no result (the Go `return nil, err` is checked on every run by DC13) ---- *)
+Theorem C13_error_iff_bad_zoom_or_some_tile_rejected : forall l E O outV,
+  tiles_to_eids l E O outV = Err <-> ~ (0 <= outV <= 35) \/ exists t, In t l /\ tile_rejected E O outV t.
+Proof. exact tiles_to_eids_err_iff. Qed.
+Print Assumptions C13_error_iff_bad_zoom_or_some_tile_rejected.
+
+Theorem C13_invalid_output_zoom_fails_every_request : forall l E O outV, ~ (0 <= outV <= 35) -> tiles_to_eids l E O outV = Err.
+Proof. exact tiles_to_eids_bad_output_zoom. Qed.
+Print Assumptions C13_invalid_output_zoom_fails_every_request.
+
+Theorem C13_empty_request : forall E O outV, tiles_to_eids [] E O outV = if ext_check_zoom 0 outV then Ok [] else Err.
+Proof. exact tiles_to_eids_empty. Qed.
+Print Assumptions C13_empty_request.
+
+(* ---- results are IDs of the grid when the tiles' x, y are indices of their horizontal zoom ---- *)
+Theorem C13_results_are_valid_ids : forall l E O outV r, tiles_to_eids l E O outV = Ok r -> (forall t, In t l -> footprint_ok t) ->
+  forall j, In j r -> valid j.
+Proof. exact tiles_to_eids_valid. Qed.
+Print Assumptions C13_results_are_valid_ids.
+
+(* ---- the union of the results contains every tile: footprint and altitude interval ---- *)
+Theorem C13_results_cover_every_tile : forall l E O outV r t p, tiles_to_eids l E O outV = Ok r -> In t l -> inT E O t p ->
+  exists j, In j r /\ inR j p.
+Proof. exact tiles_cover. Qed.
+Print Assumptions C13_results_cover_every_tile.
+
+(* ... and nothing strays: every result has the footprint of a tile whose altitude interval, widened outward to whole metres, it meets;
+   the interval itself when tile cells or target cells are at least one metre tall *)
+Theorem C13_nothing_strays : forall l E O outV r j, tiles_to_eids l E O outV = Ok r -> In j r ->
+  exists t, In t l /\ eh j = th t /\ ex j = tx t /\ ey j = ty t /\ ev j = outV /\
+    (exists a, (IZR (Zfloor (tile_lo E O t)) <= a < IZR (Zceil (tile_hi E O t)))%R /\ in_cell (sid_scale outV) (ef j) a) /\
+    ((tv t <= E \/ outV <= zorigin) -> exists a, (tile_lo E O t <= a < tile_hi E O t)%R /\ in_cell (sid_scale outV) (ef j) a).
+Proof. exact tiles_no_stray. Qed.
+Print Assumptions C13_nothing_strays.
+
+(* ---- the order of the request and repeated tiles do not matter (C16) ---- *)
+Theorem C13_same_tiles_same_result : forall l1 l2 E O outV, (forall t, In t l1 <-> In t l2) ->
+  match tiles_to_eids l1 E O outV, tiles_to_eids l2 E O outV with
+  | Ok r1, Ok r2 => Permutation r1 r2
+  | Err, Err => True
+  | _, _ => False
+  end.
+Proof. exact tiles_to_eids_set_invariant. Qed.
+Print Assumptions C13_same_tiles_same_result.
+
+Theorem C13_permuted_request : forall l1 l2 E O outV, Permutation l1 l2 ->
+  match tiles_to_eids l1 E O outV, tiles_to_eids l2 E O outV with
+  | Ok r1, Ok r2 => Permutation r1 r2 | Err, Err => True | _, _ => False end.
+Proof. exact tiles_to_eids_permutation. Qed.
+Print Assumptions C13_permuted_request.
+
+Theorem C13_duplicated_request : forall l E O outV,
+  match tiles_to_eids (l ++ l) E O outV, tiles_to_eids l E O outV with
+  | Ok r1, Ok r2 => Permutation r1 r2 | Err, Err => True | _, _ => False end.
+Proof. exact tiles_to_eids_duplication. Qed.
+Print Assumptions C13_duplicated_request.
+
+(* ---- the spatial-ID variant: precisely the C10 expansion of those extended IDs ---- *)
+Theorem C13_spatial_variant_is_the_expansion : forall l E O outV,
+  tiles_to_sids l E O outV = match tiles_to_eids l E O outV with Ok r => Ok (flat_map expand_eid r) | Err => Err end.
+Proof. exact tiles_to_sids_is_expansion. Qed.
+Print Assumptions C13_spatial_variant_is_the_expansion.
+
+Theorem C13_spatial_variant_fails_iff_extended_variant_fails : forall l E O outV,
+  tiles_to_sids l E O outV = Err <-> tiles_to_eids l E O outV = Err.
+Proof. exact tiles_to_sids_err_iff. Qed.
+Print Assumptions C13_spatial_variant_fails_iff_extended_variant_fails.
+
+Theorem C13_spatial_strings_are_the_records_printed : forall l E O outV,
+  tiles_to_sids l E O outV = match tiles_to_sids_rec l E O outV with Ok js => Ok (map print_sid js) | Err => Err end.
+Proof. exact tiles_to_sids_print. Qed.
+Print Assumptions C13_spatial_strings_are_the_records_printed.
+
+(* members: exactly the voxels at the single zoom max(hZoom, outV) — on both axes — that overlap an extended ID of the result *)
+Theorem C13_spatial_members : forall l E O outV r js, tiles_to_eids l E O outV = Ok r -> tiles_to_sids_rec l E O outV = Ok js ->
+  (forall t, In t l -> 0 <= tx t /\ 0 <= ty t) ->
+  forall j, In j js <-> exists i, In i r /\ eh j = Z.max (eh i) outV /\ ev j = Z.max (eh i) outV /\ overlaps i j.
+Proof. exact tiles_to_sids_members. Qed.
+Print Assumptions C13_spatial_members.
+
+(* the same region *)
+Theorem C13_spatial_variant_same_region : forall l E O outV r js, tiles_to_eids l E O outV = Ok r -> tiles_to_sids_rec l E O outV = Ok js ->
+  (forall t, In t l -> 0 <= tx t /\ 0 <= ty t) ->
+  forall p, (exists j, In j js /\ inR j p) <-> (exists i, In i r /\ inR i p).
+Proof. exact tiles_to_sids_region. Qed.
+Print Assumptions C13_spatial_variant_same_region.
+
+Theorem C13_spatial_variant_covers_every_tile : forall l E O outV js t p, tiles_to_sids_rec l E O outV = Ok js ->
+  (forall t, In t l -> 0 <= tx t /\ 0 <= ty t) -> In t l -> inT E O t p -> exists j, In j js /\ inR j p.
+Proof. exact tiles_to_sids_cover. Qed.
+Print Assumptions C13_spatial_variant_covers_every_tile.
+
+(* the strings returned: canonical notation of valid spatial IDs *)
+Theorem C13_spatial_strings_are_valid_ids : forall l E O outV ss, tiles_to_sids l E O outV = Ok ss -> (forall t, In t l -> footprint_ok t) ->
+  forall s, In s ss -> exists j, parse_sid s = Some j /\ s = print_sid j /\ valid j /\ eh j = ev j /\
+                                 exists js, tiles_to_sids_rec l E O outV = Ok js /\ In j js.
+Proof. exact tiles_to_sids_strings. Qed.
+Print Assumptions C13_spatial_strings_are_valid_ids.
+
+Theorem C13_spatial_variant_same_tiles_same_multiset : forall l1 l2 E O outV, (forall t, In t l1 <-> In t l2) ->
+  match tiles_to_sids l1 E O outV, tiles_to_sids l2 E O outV with
+  | Ok s1, Ok s2 => Permutation s1 s2
+  | Err, Err => True
+  | _, _ => False
+  end.
+Proof. exact tiles_to_sids_set_invariant. Qed.
+Print Assumptions C13_spatial_variant_same_tiles_same_multiset.
+
+(* the spatial-ID variant does not de-duplicate (the property does not ask it to): no repetition when the request has one horizontal
+   zoom; with nested footprints at different horizontal zooms the same spatial ID is returned twice (example below) *)
+Theorem C13_spatial_variant_no_repetition_with_one_hzoom : forall l E O outV h js, tiles_to_sids_rec l E O outV = Ok js ->
+  (forall t, In t l -> th t = h /\ 0 <= tx t /\ 0 <= ty t) -> NoDup js.
+Proof. exact tiles_to_sids_NoDup_one_hzoom. Qed.
+Print Assumptions C13_spatial_variant_no_repetition_with_one_hzoom.
+
+(* ---- the model is what the code executes: no int64 wrap-around on the property's domain ---- *)
+Theorem C13_range_computation_is_exact_on_domain : forall h x y v z t E O outV, new_tile h x y v z = Ok t -> ext_check_zoom (th t) outV = true ->
+  0 <= E <= 35 -> - 2 ^ 50 <= O <= 2 ^ 50 ->
+  key2z64m (tz t) (tv t) outV E O = Some (key2z (tz t) (tv t) outV E O, true).
+Proof. exact tile_range_int64_exact. Qed.
+Print Assumptions C13_range_computation_is_exact_on_domain.
+
+(* ---- the run-time checkers decide the specification on the OBSERVED output (DC13.v) ---- *)
+(* eids_spec l E O outV (Some r) := 0 <= outV <= 35 /\ every tile accepted /\ NoDup r /\ (In j r <-> j stems from a tile);
+   eids_spec l E O outV None     := outV outside 0..35 \/ some tile rejected            (None = an error together with an empty result) *)
+Theorem C13_checker_sound : forall l E O outV obs, check_eids l E O outV obs = true <-> eids_spec l E O outV obs.
+Proof. exact check_eids_sound. Qed.
+Print Assumptions C13_checker_sound.
+
+Theorem C13_model_meets_spec : forall l E O outV, eids_spec l E O outV (res_opt (tiles_to_eids l E O outV)).
+Proof. exact eids_spec_model. Qed.
+Print Assumptions C13_model_meets_spec.
+
+Theorem C13_spec_fixes_the_result_up_to_order : forall l E O outV obs, eids_spec l E O outV obs ->
+  match obs, tiles_to_eids l E O outV with
+  | Some r, Ok r' => Permutation r r'
+  | None, Err => True
+  | _, _ => False
+  end.
+Proof. exact eids_spec_unique. Qed.
+Print Assumptions C13_spec_fixes_the_result_up_to_order.
+
+(* the reference the checker uses is independent of the model function: AltKey's integer formulas of the widened cover *)
+Theorem C13_reference_range_is_the_accepted_range : forall E O outV t mn mx,
+  tile_ref E O outV t = Some (mn, mx) <-> tile_accepted E O outV t mn mx.
+Proof. exact tile_ref_Some. Qed.
+Print Assumptions C13_reference_range_is_the_accepted_range.
+
+(* sids_spec l E O outV (Some ss) := exists r, eids_spec l E O outV (Some r) /\ ss is a permutation of the printed expansion of r *)
+Theorem C13_spatial_checker_sound : forall l E O outV obs, check_sids l E O outV obs = true -> sids_spec l E O outV obs.
+Proof. exact check_sids_sound. Qed.
+Print Assumptions C13_spatial_checker_sound.
+
+Theorem C13_spatial_model_meets_spec : forall l E O outV, sids_spec l E O outV (res_opt (tiles_to_sids l E O outV)).
+Proof. exact sids_spec_model. Qed.
+Print Assumptions C13_spatial_model_meets_spec.
+
+Theorem C13_spatial_checker_accepts_the_model : forall l E O outV, (forall t, In t l -> footprint_ok t) ->
+  check_sids l E O outV (res_opt (tiles_to_sids l E O outV)) = true.
+Proof. exact check_sids_model. Qed.
+Print Assumptions C13_spatial_checker_accepts_the_model.
+
+Theorem C13_accepted_spatial_observation : forall l E O outV ss, sids_spec l E O outV (Some ss) -> (forall t, In t l -> footprint_ok t) ->
+  exists r js, tiles_to_eids l E O outV = Ok r /\ tiles_to_sids_rec l E O outV = Ok js /\ Permutation ss (map print_sid js) /\
+    (forall s, In s ss -> exists j, parse_sid s = Some j /\ s = print_sid j /\ valid j /\ eh j = ev j /\ In j js) /\
+    (forall p, (exists j, In j js /\ inR j p) <-> (exists i, In i r /\ inR i p)) /\
+    (forall t p, In t l -> inT E O t p -> exists j, In j js /\ inR j p).
+Proof. exact sids_spec_consequences. Qed.
+Print Assumptions C13_accepted_spatial_observation.
+
+(* both variants called on the same arguments: an accepted pair is a permutation of the expansion of the observed extended IDs *)
+Theorem C13_pair_law_sound : forall ss r, sids_match ss (flat_map expand_rec r) || multiset_eqb ss (flat_map expand_eid r) = true ->
+  Permutation ss (flat_map expand_eid r).
+Proof. exact pair_law_sound. Qed.
+Print Assumptions C13_pair_law_sound.
+
+Theorem C13_new_tile_checker_sound : forall h x y v z obs, check_new_tile h x y v z obs = true <-> new_tile_spec_obs h x y v z obs.
+Proof. exact check_new_tile_sound. Qed.
+Print Assumptions C13_new_tile_checker_sound.
+
+(* the finding-class guard of the dispatcher: with every per-tile int64 computation exact the executed function is key2z; on the
+   property's domain the guard always holds *)
+Theorem C13_exactness_guard_meaning : forall ts E O outV t, exact_tiles ts E O outV = true -> In t ts -> ext_check_zoom (th t) outV = true ->
+  go_result (key2z64m (tz t) (tv t) outV E O) = Some (key2z (tz t) (tv t) outV E O).
+Proof. exact exact_tiles_meaning. Qed.
+Print Assumptions C13_exactness_guard_meaning.
+
+Theorem C13_exactness_guard_holds_on_domain : forall tiles ts E O outV, build tiles = Some (Ok ts) -> 0 <= E <= 35 -> - 2 ^ 50 <= O <= 2 ^ 50 ->
+  exact_tiles ts E O outV = true.
+Proof. exact exact_tiles_on_domain. Qed.
+Print Assumptions C13_exactness_guard_holds_on_domain.
+
+(* ---- non-vacuity ---- *)
+(* the documentation's examples 1 and 3 *)
+Example C13_doc_example_1 : tiles_to_eids [mkt 20 85263 65423 23 0] 25 8 23 = Ok [mk 20 85263 65423 23 (-2)].
+Proof. exact doc_example_1. Qed.
+Example C13_doc_example_3 : tiles_to_eids [mkt 20 85263 65423 23 0] 25 7 23 = Ok [mk 20 85263 65423 23 (-2); mk 20 85263 65423 23 (-1)].
+Proof. exact doc_example_3. Qed.
+(* one request, the same z at two vertical zooms: each tile gets the range of its own zoom; an index that exists at vZoom 3 but not at
+   vZoom 2 fails the whole call also when it comes last *)
+Example C13_same_z_other_vzoom : tiles_to_eids [mkt 3 1 2 25 1; mkt 3 1 2 24 1] 25 0 25 = Ok [mk 3 1 2 25 1; mk 3 1 2 25 2; mk 3 1 2 25 3].
+Proof. exact same_z_other_vzoom. Qed.
+Example C13_same_z_invalid_at_other_vzoom :
+  tiles_to_eids [mkt 3 1 2 3 5] 25 0 3 = Ok [mk 3 1 2 3 5] /\ tiles_to_eids [mkt 3 1 2 3 5; mkt 3 1 2 2 5] 25 0 3 = Err.
+Proof. exact same_z_invalid_at_other_vzoom. Qed.
+Example C13_overlapping_tiles_are_merged :
+  tiles_to_eids [mkt 1 0 1 25 0; mkt 1 0 1 25 1; mkt 1 0 1 24 0] 25 0 25 = Ok [mk 1 0 1 25 0; mk 1 0 1 25 1].
+Proof. exact overlapping_tiles. Qed.
+Example C13_empty_request_bad_zoom : tiles_to_eids [] 25 0 36 = Err /\ tiles_to_eids [] 25 0 (-1) = Err /\ tiles_to_eids [] 25 0 35 = Ok [].
+Proof. exact empty_request_bad_zoom. Qed.
+(* a range that starts on a legal index and runs past the top of the target zoom is an error *)
+Example C13_range_past_the_top_is_an_error :
+  key2z (2 ^ 24 - 1) 24 25 25 (-1) = Err /\ tiles_to_eids [mkt 20 85263 65423 23 0; mkt 20 85263 65423 24 (2 ^ 24 - 1)] 25 (-1) 25 = Err.
+Proof. exact range_past_the_top_is_an_error. Qed.
+(* output vertical zoom 0 with hZoom 3: the expansion raises the vertical axis to zoom 3 *)
+Example C13_output_zoom_0 : tiles_to_sids [mkt 3 5 2 3 3] 3 2 0 =
+  Ok ["3/0/5/2"; "3/1/5/2"; "3/2/5/2"; "3/3/5/2"; "3/4/5/2"; "3/5/5/2"; "3/6/5/2"; "3/7/5/2"]%string.
+Proof. exact output_zoom_0. Qed.
+Example C13_spatial_variant_example : tiles_to_sids [mkt 2 1 3 25 4] 25 0 3 = Ok ["3/0/2/6"; "3/0/2/7"; "3/0/3/6"; "3/0/3/7"]%string.
+Proof. exact spatial_variant_example. Qed.
+Example C13_spatial_variant_may_repeat :
+  tiles_to_sids [mkt 0 0 0 1 0; mkt 1 0 0 1 0] 25 0 1 = Ok ["1/0/0/0"; "1/0/0/1"; "1/0/1/0"; "1/0/1/1"; "1/0/0/0"]%string.
+Proof. exact tiles_to_sids_may_repeat. Qed.
+(* the hypotheses of the cover theorem are satisfiable: the point (u, w, altitude 2.5 m) of tile (1, 0, 1, 25, 2) with E = 25, O = 0 *)
+Example C13_cover_hypotheses_satisfiable : inT 25 0 (mkt 1 0 1 25 2) (0.25, 0.75, 2.5 * / 33554432)%R.
+Proof. exact cover_hypotheses_satisfiable. Qed.
